@@ -150,7 +150,8 @@ def match_close(ct, i):
 
 
 ITEM_KW = {'fn', 'struct', 'enum', 'impl', 'mod', 'trait', 'const', 'static', 'type', 'macro_rules', 'use'}
-MODIFIERS = {'pub', 'unsafe', 'extern', 'async', 'default', 'const'}
+MODIFIERS = {'pub', 'unsafe', 'extern', 'async', 'default', 'const', 'open', 'closed', 'spec', 'proof', 'exec',
+             'uninterp', 'broadcast'}
 
 
 class Item:
@@ -184,6 +185,12 @@ def _items_in(src, ct, lo, hi, ctx, out):
             break
         t = ct[i]
         first = i
+        # verus! { ... } : descend
+        if t.kind == 'ident' and t.text == 'verus' and i + 2 < hi and ct[i + 1].text == '!' and ct[i + 2].text == '{':
+            close = match_close(ct, i + 2)
+            _items_in(src, ct, i + 3, close, ctx, out)
+            i = close + 1
+            continue
         # modifiers
         j = i
         while j < hi and ct[j].kind == 'ident' and ct[j].text in MODIFIERS:
@@ -191,7 +198,7 @@ def _items_in(src, ct, lo, hi, ctx, out):
                 j = match_close(ct, j + 1) + 1
             elif ct[j].text == 'extern' and j + 1 < hi and ct[j + 1].kind == 'str':
                 j += 2
-            elif ct[j].text == 'const' and j + 1 < hi and ct[j + 1].kind == 'ident' and ct[j + 1].text not in ('fn', 'unsafe', 'extern', 'async'):
+            elif ct[j].text == 'const' and j + 1 < hi and ct[j + 1].kind == 'ident' and ct[j + 1].text not in ('fn', 'unsafe', 'extern', 'async', 'exec'):
                 break  # const item
             else:
                 j += 1
